@@ -472,6 +472,11 @@ theorem C03_table_code_points {V V' : List (List Int)}
   insertTableOpts_natural_clusters hV hsp hV' g hg hws hgsp hghy toks ht o0 pos data hdata width o
     hSV hfix hc hcd hfixC0 hfixC hup hup' hupg
 
+/- `hAL` (the letter `A` is not a rune of the line separator) was added with the repair of defect D18:
+a line separator that contains `A` is padded with another letter (`cxA.placeholder`), which need not
+be a cluster of `V` fixed by `g`.  Before the repair the theorem held for such separators too, but
+only because all three runs used the same defective algorithm (stand-ins read as line separators,
+real text deleted in their place). -/
 /-- **paragraph mode** (`preservePara = true`), Editor.WrapOpts: the line and paragraph separators
 form a `BridgeEditorParas.GoodPara` pair for both vocabularies and are fixed by `g`; the placeholder
 letter `A` the implementation pads paragraphs with is a cluster of `V` fixed by `g`.  `r` is the
@@ -491,7 +496,8 @@ theorem C03_wrapOpts_para_code_points {V V' : List (List Int)}
     (hfix : ∀ s ∈ (o.withDefaults cxB).lineSep, g s = s)
     (hinv : ∀ t ∈ V, g t ∈ (o.withDefaults cxB).lineSep → t ∈ (o.withDefaults cxB).lineSep)
     (hfixP : ∀ s ∈ (o.withDefaults cxB).paraSep, g s = s)
-    (hinvP : ∀ t ∈ V, g t ∈ (o.withDefaults cxB).paraSep → t ∈ (o.withDefaults cxB).paraSep) :
+    (hinvP : ∀ t ∈ V, g t ∈ (o.withDefaults cxB).paraSep → t ∈ (o.withDefaults cxB).paraSep)
+    (hAL : (0x41 : Int) ∉ ((o.withDefaults cxB).lineSep).flatten) :
     ∃ r : List (List Int),
       Editor.wrapOpts cxA (.root toks.flatten o0.flat) width o.flat =
         .ok (.root r.flatten o0.flat) ∧
@@ -499,8 +505,29 @@ theorem C03_wrapOpts_para_code_points {V V' : List (List Int)}
         .ok (.root (r.map g).flatten o0.flat) ∧
       Editor.wrapOpts cxB (.root toks o0) width o = .ok (.root r o0) :=
   wrapOpts_natural_para hV hsp hhy hA hspTail hV' hspTail' g hg hws hgsp hghy hgA toks ht width o0
-    o hpp hG hG' hfix hinv hfixP hinvP
+    o hpp hG hG' hfix hinv hfixP hinvP hAL
 
+open RosedVerif.BridgeEditorParas in
+/-- the hypotheses are satisfiable: the default separators, any text over `demoVocabA`, the
+identity substitution -/
+example (toks : List (List Int)) (ht : ∀ t ∈ toks, t ∈ demoVocabA) (width : Int)
+    (o0 o : Options (List Int)) (hpp : o.preservePara = true) (hl : o.lineSep = [])
+    (hp : o.paraSep = []) :
+    ∃ r : List (List Int),
+      Editor.wrapOpts cxA (.root toks.flatten o0.flat) width o.flat =
+        .ok (.root r.flatten o0.flat) ∧
+      Editor.wrapOpts cxA (.root (toks.map id).flatten o0.flat) width o.flat =
+        .ok (.root (r.map id).flatten o0.flat) ∧
+      Editor.wrapOpts cxB (.root toks o0) width o = .ok (.root r o0) :=
+  have hG : GoodPara demoVocabA (o.withDefaults cxB).lineSep (o.withDefaults cxB).paraSep := by
+    rw [(default_seps o hl hp).1, (default_seps o hl hp).2]; exact demoVocabA_goodPara
+  C03_wrapOpts_para_code_points demoVocabA_stable (by decide) (by decide) (by decide)
+    (BridgeWrap.spTail_of_spOnly (by decide)) demoVocabA_stable
+    (BridgeWrap.spTail_of_spOnly (by decide)) id (fun _ h => h) (fun _ => rfl) rfl rfl rfl toks ht
+    width o0 o hpp hG hG (fun _ _ => rfl) (fun _ _ h => h) (fun _ _ => rfl) (fun _ _ h => h)
+    (by rw [(default_seps o hl hp).1]; decide)
+
+/- `hAL` as in `C03_wrapOpts_para_code_points`: JustifyOpts pads with the same stand-in (repair of D18) -/
 /-- paragraph mode, Editor.JustifyOpts (`JustifyLastLine` on or off) -/
 theorem C03_justifyOpts_para_code_points {V V' : List (List Int)}
     (hV : VocabStable V = true)
@@ -516,7 +543,8 @@ theorem C03_justifyOpts_para_code_points {V V' : List (List Int)}
     (hfix : ∀ s ∈ (o.withDefaults cxB).lineSep, g s = s)
     (hinv : ∀ t ∈ V, g t ∈ (o.withDefaults cxB).lineSep → t ∈ (o.withDefaults cxB).lineSep)
     (hfixP : ∀ s ∈ (o.withDefaults cxB).paraSep, g s = s)
-    (hinvP : ∀ t ∈ V, g t ∈ (o.withDefaults cxB).paraSep → t ∈ (o.withDefaults cxB).paraSep) :
+    (hinvP : ∀ t ∈ V, g t ∈ (o.withDefaults cxB).paraSep → t ∈ (o.withDefaults cxB).paraSep)
+    (hAL : (0x41 : Int) ∉ ((o.withDefaults cxB).lineSep).flatten) :
     ∃ r : List (List Int),
       Editor.justifyOpts cxA (.root toks.flatten o0.flat) width o.flat =
         .ok (.root r.flatten o0.flat) ∧
@@ -524,7 +552,27 @@ theorem C03_justifyOpts_para_code_points {V V' : List (List Int)}
         .ok (.root (r.map g).flatten o0.flat) ∧
       Editor.justifyOpts cxB (.root toks o0) width o = .ok (.root r o0) :=
   justifyOpts_natural_para hV hsp hA hspTail hV' hspTail' g hg hws hgsp hghy hgA toks ht width o0
-    o hpp hG hG' hfix hinv hfixP hinvP
+    o hpp hG hG' hfix hinv hfixP hinvP hAL
+
+open RosedVerif.BridgeEditorParas in
+/-- the hypotheses are satisfiable: the default separators, any text over `demoVocabA`, the
+identity substitution -/
+example (toks : List (List Int)) (ht : ∀ t ∈ toks, t ∈ demoVocabA) (width : Int)
+    (o0 o : Options (List Int)) (hpp : o.preservePara = true) (hl : o.lineSep = [])
+    (hp : o.paraSep = []) :
+    ∃ r : List (List Int),
+      Editor.justifyOpts cxA (.root toks.flatten o0.flat) width o.flat =
+        .ok (.root r.flatten o0.flat) ∧
+      Editor.justifyOpts cxA (.root (toks.map id).flatten o0.flat) width o.flat =
+        .ok (.root (r.map id).flatten o0.flat) ∧
+      Editor.justifyOpts cxB (.root toks o0) width o = .ok (.root r o0) :=
+  have hG : GoodPara demoVocabA (o.withDefaults cxB).lineSep (o.withDefaults cxB).paraSep := by
+    rw [(default_seps o hl hp).1, (default_seps o hl hp).2]; exact demoVocabA_goodPara
+  C03_justifyOpts_para_code_points demoVocabA_stable (by decide) (by decide)
+    (BridgeWrap.spTail_of_spOnly (by decide)) demoVocabA_stable
+    (BridgeWrap.spTail_of_spOnly (by decide)) id (fun _ h => h) (fun _ => rfl) rfl rfl rfl toks ht
+    width o0 o hpp hG hG (fun _ _ => rfl) (fun _ _ h => h) (fun _ _ => rfl) (fun _ _ h => h)
+    (by rw [(default_seps o hl hp).1]; decide)
 
 /-- paragraph mode, Editor.AlignOpts, every alignment value (no placeholder letter involved) -/
 theorem C03_alignOpts_para_code_points {V V' : List (List Int)}
